@@ -7,6 +7,8 @@ pub mod c10;
 pub mod c11;
 pub mod c12;
 pub mod c13;
+pub mod c19;
+pub mod c20;
 
 use crate::engine::{Ctx, Report};
 
@@ -20,6 +22,8 @@ pub fn run(ctx: &Ctx) -> Option<Report> {
         "C11" => c11::run(ctx),
         "C12" => c12::run(ctx),
         "C13" => c13::run(ctx),
+        "C19" => c19::run(ctx),
+        "C20" => c20::run(ctx),
         _ => return None,
     })
 }
@@ -35,6 +39,8 @@ pub fn replay(id: &str, case: &serde_json::Value) -> Option<Result<(), String>> 
         "C11" => c11::replay(case),
         "C12" => c12::replay(case),
         "C13" => c13::replay(case),
+        "C19" => c19::replay(case),
+        "C20" => c20::replay(case),
         _ => return None,
     })
 }
